@@ -138,6 +138,7 @@ class ModuleSpec:
         self.items = []     # ItemSpec
         self.fns = []       # FnSpec (order of appearance)
         self.sitedefault = None
+        self.hidedefault = []   # spec fns hidden at the start of every verified fn of the module (opt nohide to keep them visible)
 
 
 def _indent(line):
@@ -233,6 +234,11 @@ def parse_vspec(path, modules):
                     err('raw without end', i)
                 cur_mod.raw.append((buf, (path, i + 2), rest.strip()))
                 i = j + 1
+            elif key == 'hidedefault':
+                if cur_mod is None:
+                    err('hidedefault outside module', i)
+                cur_mod.hidedefault += rest.split()
+                i += 1
             elif key == 'sitedefault':
                 if cur_mod is None:
                     err('sitedefault outside module', i)
